@@ -127,6 +127,20 @@ def assume_text(st, env, text):
     return [s for s in states if not s.cons.unsat()]
 
 
+def refutes_equality(st, d):
+    """d != 0 by refutation: with d == 0 added, the constraints become unsatisfiable or force a recorded disequality to
+    be an equality (e.g. the fact is known about the sign-extended copy of a byte and asked about the byte)"""
+    s = st.fork()
+    s.cons.add(d)
+    s.cons.add(-d)
+    if s.cons.unsat():
+        return True
+    for q in list(s.diseq.values())[:24]:
+        if s.cons.entails(q) and s.cons.entails(-q):
+            return True
+    return False
+
+
 def entails_text(st, env, text):
     for clause in env.constraints(text):
         if len(clause) == 1:
@@ -134,6 +148,8 @@ def entails_text(st, env, text):
                 return False
         else:
             if len(clause) == 2 and len(clause[0]) == 1 and st.known_diseq(clause[0][0] - 1, 0):
+                continue
+            if len(clause) == 2 and len(clause[0]) == 1 and len(clause[1]) == 1 and refutes_equality(st, clause[0][0] - 1):
                 continue
             if not any(all(st.cons.entails(l) for l in alt) for alt in clause):
                 return False
